@@ -48,7 +48,7 @@ def drive_case(bins, case, idx):
             t["commands"] = {"path": "tools/cmd" if case.get("shareddir") else tp + "/scripts"}
         if ti == 0 and case.get("deps"):
             t["uses"] = ["svc2/src.txt"]
-        if ti == 0 and case["resolve"] == "defpath":
+        if ti == 0 and case["resolve"] in ("defpath", "defpath_missing"):
             t.setdefault("commands", {})["definitions"] = {"build": {"path": "svc/tools/run-build"}}
         if ti == 0 and case["resolve"] == "def_nopath":
             t.setdefault("commands", {})["definitions"] = {"build": {}}
@@ -118,6 +118,8 @@ def drive_case(bins, case, idx):
         run_targets = ["svc"] if single else tpaths
         for tp in run_targets:
             for c in cmds:
+                if case["resolve"] == "defpath_missing" and not (tp == "svc" and c == "build"):
+                    continue        # the run fails at svc's build (nothing to execute): what else ran is C06's business
                 mine = [e for e in evs if e["k"] == "start" and (e.get("id") or {}).get("target") == tp
                         and (e.get("id") or {}).get("slot") == c]
                 base = (files[(tp, "base")] or {}).get(c, [])
@@ -129,10 +131,11 @@ def drive_case(bins, case, idx):
                 else:
                     obs = {"started": 0, "argv": [], "cwd": [], "exe": []}
                 hasdef = (tp == "svc" and c == "build" and case["resolve"] == "defpath")
+                defmissing = (tp == "svc" and c == "build" and case["resolve"] == "defpath_missing")
                 recs.append({"ev": "argv", "cmd": c, "target": runlib.P(tp), "base": base, "named": named,
                              "requested": requested, "args": cli_args if (single and tp == "svc" and c == "build") else [],
                              "nobase": case["nobase"], "hasdef": hasdef, "defpath": runlib.P("svc/tools/run-build"),
-                             "candidates": candidates[tp], "observed": obs, "case": idx, "rc": res["rc"]})
+                             "candidates": candidates[tp], "observed": obs, "case": idx, "rc": res["rc"], "defmissing": defmissing})
         recs += show_records(fx, targets, case, idx)
         return recs
     finally:
